@@ -2,7 +2,7 @@
 META = {
     "level": 'exploration',
     "technique": 'policy oracle from docs/garbage-collection.rst on the real LeaseCheckingCrawler: every expiry configuration x shares whose leases were renewed at threshold +-{1 s, 1 day, 1 year}, virtual clock, one forced full crawl cycle (and a second one two years later)',
-    "text": 'Creates real share files through the real StorageServer (immutable: allocate_buckets/write/close, mutable: slot_testv_and_readv_and_writev) with 0..5 leases each, added and renewed through add_lease/renew_lease/allocate_buckets at chosen instants of a virtual clock (epoch ~1.7e9; the clock drives StorageServer(clock=...) and the `time` global of storage.expirer/lease/crawler). Enumerates all 88 policy configurations: expiration enabled/disabled x (age mode with override None/1d/10d/31d/60d/400d | cutoff-date mode with cutoff now-400d/-40d/-31d/-1d/+1d) x share types (both, mutable, immutable, none). The real lease crawler then runs exactly one full cycle (start_slice with an unbounded cpu_slice). Oracle (the statement): disabled => every share still present and readable; enabled => a share whose type is not enabled or that holds at least one lease that is not expired (age: renewal + duration >= now; cutoff: renewal >= cutoff) is still present with its data intact, and a share of an enabled type all of whose (>=1) leases are expired is gone. A second family builds the storage server the way a node does - tahoe.cfg [storage] expire.enabled/mode/override_lease_duration/cutoff_date and expire.immutable/expire.mutable in all 3x3 combinations of true/false/absent, read by allmydata.client.read_config and turned into a StorageServer by the real _Client.get_anonymous_storage_server() (on a _Client subclass with a trivial __init__) - and applies the same oracle. Buckets holding 2..4 shares (uploaded together) get ONE share file damaged before the crawl (bad version magic, truncated header, zero length), the victim taken at every os.listdir position in turn: the healthy shares listed before and after it are judged as usual. Renewal exactly at the threshold instant, zero-lease shares, damaged share files themselves and leases that share a cancel secret are generated, counted and not judged. A second cycle two years later re-judges the survivors.',
+    "text": 'Creates real share files through the real StorageServer (immutable: allocate_buckets/write/close, mutable: slot_testv_and_readv_and_writev) with 0..5 leases each, added and renewed through add_lease/renew_lease/allocate_buckets at chosen instants of a virtual clock (epoch ~1.7e9; the clock drives StorageServer(clock=...) and the `time` global of storage.expirer/lease/crawler). Enumerates all 88 policy configurations: expiration enabled/disabled x (age mode with override None/1d/10d/31d/60d/400d | cutoff-date mode with cutoff now-400d/-40d/-31d/-1d/+1d) x share types (both, mutable, immutable, none). The real lease crawler then runs exactly one full cycle (start_slice with an unbounded cpu_slice). Oracle (the statement): disabled => every share still present and readable; enabled => a share whose type is not enabled or that holds at least one lease that is not expired (age: renewal + duration >= now; cutoff: renewal >= cutoff) is still present with its data intact, and a share of an enabled type all of whose (>=1) leases are expired is gone. A second family builds the storage server the way a node does - tahoe.cfg [storage] expire.enabled/mode/override_lease_duration/cutoff_date and expire.immutable/expire.mutable in all 3x3 combinations of true/false/absent, read by allmydata.client.read_config and turned into a StorageServer by the real _Client.get_anonymous_storage_server() (on a _Client subclass with a trivial __init__) - and applies the same oracle; the cutoff-date configurations are repeated with the process time zone set to UTC0, EST5 and MSK-3 (the cutoff is midnight UTC whatever the zone; leases renewed 1 s, 2 h and 4 h either side of it). Buckets holding 2..4 shares (uploaded together) get ONE share file damaged before the crawl (bad version magic, truncated header, zero length), the victim taken at every os.listdir position in turn: the healthy shares listed before and after it are judged as usual. Renewal exactly at the threshold instant, zero-lease shares, damaged share files themselves and leases that share a cancel secret are generated, counted and not judged. A second cycle two years later re-judges the survivors.',
     "note": 'Trusts the 10-line expiry predicate and the virtual clock shim. Presence is observed through StorageServer.get_shares() and reads through get_buckets()/slot_readv(). One crawl cycle without restarts (restart behaviour is C27).',
 }
 LEVEL = "exploration"
@@ -122,9 +122,9 @@ def build_population(cfg, now, rng, tier, shared_cancel_only=False):
             else:
                 new(k, [-YEAR, -DAY], "shared-cancel-secret-both-expired", shared_cancel=True)
         return shares
-    # one lease at every offset
+    # one lease at every offset (and a few hours either side: a cutoff date is a *UTC* midnight)
     for k in kinds:
-        for d in DELTAS:
+        for d in DELTAS + (-4 * 3600, -2 * 3600, 2 * 3600, 4 * 3600):
             new(k, [d], "single")
     # 2..5 leases: all expired / exactly one valid (every position) / all valid / with an edge lease
     neg = (-YEAR, -DAY, -1)
@@ -271,9 +271,13 @@ def run(ck):
                     ("cutoff-date", None, cutoff,
                      [("expire.mode", "cutoff-date"),
                       ("expire.cutoff_date", time.strftime("%Y-%m-%d", time.gmtime(cutoff)))])]
-        for mode, ov, cd, opts in policies:
+        variants = [(pol, None) for pol in policies] + [(policies[2], "UTC0"), (policies[2], "EST5"),
+                                                        (policies[2], "MSK-3"), (policies[0], "EST5")]
+        for (mode, ov, cd, opts), tz in variants:
             for imm in (True, False, None):
                 for mut in (True, False, None):
+                    if tz is not None and (imm, mut) not in ((None, None), (True, False), (False, True)):
+                        continue
                     o = [("expire.enabled", "true")] + opts
                     if imm is not None:
                         o.append(("expire.immutable", str(imm).lower()))
@@ -282,7 +286,7 @@ def run(ck):
                     st = tuple(t for t, v in (("immutable", imm), ("mutable", mut)) if v is not False)
                     out.append({"enabled": True, "mode": mode, "override": ov, "cutoff": cd,
                                 "cutoff_rel_days": None if cd is None else (cd - now) // DAY,
-                                "sharetypes": st, "now": now, "tahoe_cfg": o})
+                                "sharetypes": st, "now": now, "tahoe_cfg": o, "tz": tz})
         for o in ([("expire.enabled", "false"), ("expire.mode", "age")], []):
             out.append({"enabled": False, "mode": "age", "override": None, "cutoff": None, "sharetypes":
                         ("immutable", "mutable"), "now": now, "tahoe_cfg": o})
@@ -290,7 +294,7 @@ def run(ck):
 
     def describe(cfg):
         if cfg.get("tahoe_cfg") is not None:
-            return {"tahoe.cfg [storage]": ["%s = %s" % kv for kv in cfg["tahoe_cfg"]],
+            return {"tahoe.cfg [storage]": ["%s = %s" % kv for kv in cfg["tahoe_cfg"]], "process TZ": cfg.get("tz"),
                     "meaning": {"enabled": cfg["enabled"], "mode": cfg["mode"], "sharetypes": cfg["sharetypes"],
                                 "override": cfg["override"], "cutoff": cfg["cutoff"]}}
         d = {k: cfg[k] for k in ("enabled", "mode", "sharetypes")}
@@ -303,7 +307,13 @@ def run(ck):
     def one_config(ci, cfg, shared_only=False):
         now = cfg["now"]
         d = tempfile.mkdtemp(prefix="vf-")
+        old_tz = os.environ.get("TZ")
         try:
+            if cfg.get("tz"):
+                # the node's process time zone must not matter: expire.cutoff_date is midnight UTC
+                os.environ["TZ"] = cfg["tz"]
+                time.tzset()
+                ck.hit("non-default-process-timezone" if cfg["tz"] != "UTC0" else "utc-process-timezone")
             clock = Clock()
             clock.advance(now - 3 * YEAR)
             vt = VTime(clock)
@@ -549,6 +559,12 @@ def run(ck):
                 except Exception:
                     ck.observe("history-unavailable")
         finally:
+            if cfg.get("tz"):
+                if old_tz is None:
+                    os.environ.pop("TZ", None)
+                else:
+                    os.environ["TZ"] = old_tz
+                time.tzset()
             expirer_mod.time, lease_mod.time, crawler_mod.time = saved
             shutil.rmtree(d, ignore_errors=True)
 
@@ -580,7 +596,7 @@ def run(ck):
     ck.exhaustive = False      # configurations are enumerated completely, lease sets are structured + sampled
     ck.require_monitor("expiry-oracle", "survivor-data-oracle")
     ck.require_reach("full-cycle-completed", "all-leases-expired", "valid-lease-among-expired",
-                     "sharetype-filter-decides", "server-built-from-tahoe-cfg", "expired-share-listed-after-damaged-share",
+                     "sharetype-filter-decides", "server-built-from-tahoe-cfg", "non-default-process-timezone", "expired-share-listed-after-damaged-share",
                      "expired-share-listed-before-damaged-share", "lease-renewed-through-renew_lease",
                      "lease-renewed-through-add_lease")
 
